@@ -53,6 +53,22 @@ class Boom(Exception):
     """The exception injected into foreign code (user predicates, projections)."""
 
 
+class BoomRuntime(RuntimeError):
+    """injected; a RuntimeError subclass (engine code that catches RuntimeError must not eat it)"""
+
+
+class BoomKey(KeyError):
+    """injected; a LookupError subclass"""
+
+
+class BoomValue(ValueError):
+    """injected"""
+
+
+INJECTED = {'Exception': Boom, 'RuntimeError': BoomRuntime, 'KeyError': BoomKey, 'ValueError': BoomValue}
+INJECTED_KINDS = ('Exception', 'RuntimeError', 'KeyError', 'ValueError')
+
+
 # ------------------------------------------------------------------------------------
 # seeds
 
